@@ -1,34 +1,1 @@
-// generated by the runner: concrete counterexamples replayed natively
-use super::r#gen::*;
-/// Test generated for harness `r#gen::c22_pos_s1` 
-///
-/// Check for `assertion`: ""offset inside the document""
-
-#[test]
-fn kani_concrete_playback_c22_pos_s1_12545980107426428067() {
-    let concrete_vals: Vec<Vec<u8>> = vec![
-        // 0
-        vec![0],
-        // 1ul
-        vec![1, 0, 0, 0, 0, 0, 0, 0],
-        // 1ul
-        vec![1, 0, 0, 0, 0, 0, 0, 0],
-    ];
-    kani::concrete_playback_run(concrete_vals, c22_pos_s1);
-}
-/// Test generated for harness `r#gen::c22_pos_s1` 
-///
-/// Check for `assertion`: ""offset stays on the requested line""
-
-#[test]
-fn kani_concrete_playback_c22_pos_s1_10656909623946754172() {
-    let concrete_vals: Vec<Vec<u8>> = vec![
-        // 0
-        vec![0],
-        // 0ul
-        vec![0, 0, 0, 0, 0, 0, 0, 0],
-        // 1ul
-        vec![1, 0, 0, 0, 0, 0, 0, 0],
-    ];
-    kani::concrete_playback_run(concrete_vals, c22_pos_s1);
-}
+// no concrete playback test recorded
